@@ -100,7 +100,7 @@ import (
 // ---- lemmas (C07 duality laws) -----------------------------------------------------------------
 
 // @ lemma lemma_not_equal [C07]
-// @   requires valid(a) && valid(b)
+// @   requires valid(a) && valid(b) && !is(a, *value.IP)
 // @   inline-calls
 // @   ensures [negation] e1 == nil && e2 == nil ==> x.(*value.Boolean).Value == !y.(*value.Boolean).Value
 // @   ensures [same-definedness] (e1 == nil) == (e2 == nil)
